@@ -60,6 +60,29 @@ func c20Depth(nodes []Node) int {
 	return d
 }
 
+// well-formed directive name, stated independently of the implementation:
+// non-empty, not starting with a digit, only letters, digits, '.', '-', '_'
+// (ASCII classes are decided here; non-ASCII letters/digits are accepted as the
+// documentation allows Unicode letters)
+func c20ValidName(s string) bool {
+	if len(s) == 0 {
+		return false
+	}
+	if s[0] >= '0' && s[0] <= '9' {
+		return false
+	}
+	for i := 0; i < len(s); i++ {
+		c := s[i]
+		switch {
+		case c >= 'a' && c <= 'z', c >= 'A' && c <= 'Z', c >= '0' && c <= '9', c == '.', c == '-', c == '_':
+		case c >= 0x80:
+		default:
+			return false
+		}
+	}
+	return true
+}
+
 func c20CheckTree(nodes []Node, depth int) {
 	if depth > 256 {
 		verifFail("C20.nesting-unbounded")
@@ -74,7 +97,7 @@ func c20CheckTree(nodes []Node, depth int) {
 		if n.Name == "import" {
 			verifFail("C20.import-left-unexpanded")
 		}
-		if err := validateNodeName(n.Name); err != nil {
+		if !c20ValidName(n.Name) {
 			verifFail("C20.malformed-directive-name")
 		}
 		for _, a := range n.Args {
